@@ -62,6 +62,7 @@ def encOpt : Option Nat → Nat
 def encObs : Obs → List Nat
   | .enterCbs s m sn => [0, s, m] ++ sn.map encOpt
   | .exitCbs s m sn => [1, s, m] ++ sn.map encOpt
+  | .exitAbort s m sn => [5, s, m] ++ sn.map encOpt
   | .failure s m sn => [2, s, m] ++ sn.map encOpt
   | .raised s m => [3, s, m]
   | .created i => [4, i + 1]
@@ -70,24 +71,31 @@ def encLog (l : List Obs) : List Nat := l.length :: l.flatMap encObs
 
 def c19Op : P Op := do
   let k ← nat; let s ← nat; let m ← nat; let src ← nat
-  pure (if k = 0 then .enter s m src else .exit s m)
+  pure (if k = 0 then .enter s m src else if k = 1 then .exit s m else .exitFail s m)
 
 def hookSnaps (c : FCfg) (nm : Nat) (st : FS) : List Nat :=
   (List.range nm).flatMap fun m => (snap c m st).map encOpt
 
-def c19RunGroups (c : FCfg) (nm : Nat) : List (List Op) → FS → List Nat
+/-- edits of public `tags` lists made before a trigger: (state, the list afterwards) -/
+def c19TagEdit : P (Nat × List Nat) := do let s ← nat; let l ← nats; pure (s, l)
+
+def c19ApplyEdits (c : FCfg) (es : List (Nat × List Nat)) : FCfg :=
+  es.foldl (fun c e => c.setTags e.1 e.2) c
+
+def c19RunGroups (c : FCfg) (nm : Nat) : List (List (Nat × List Nat) × List Op) → FS → List Nat
   | [], _ => []
-  | g :: r, st =>
+  | (es, g) :: r, st =>
+    let c1 := c19ApplyEdits c es
     let st0 : FS := { st with log := [] }
-    let (st1, raised) := runGroup c g st0
-    encLog st1.log ++ [if raised then 1 else 0] ++ hookSnaps c nm st1 ++ c19RunGroups c nm r st1
+    let (st1, raised) := runGroup c1 g st0
+    encLog st1.log ++ [if raised then 1 else 0] ++ hookSnaps c1 nm st1 ++ c19RunGroups c1 nm r st1
 
 def c19OpsCase : P String := do
   let feats ← list c19Mixin
   let nhooks ← nat
   let ss ← c19States
   let nm ← nat
-  let groups ← list (list c19Op)
+  let groups ← list (do let es ← list c19TagEdit; let g ← list c19Op; pure (es, g))
   let c : FCfg := { feats, args := c19Args ss, hasOut := c19Out ss, nhooks }
   pure (joinNats (c19RunGroups c nm groups FS.init))
 
@@ -95,11 +103,23 @@ def c19Trans : P FTrans := do
   let ev ← nat; let src ← nat; let d ← opt nat
   pure { ev, src, dest := d }
 
-def c19RunFlat (F : Flat) (nm : Nat) : List (Nat × Nat) → MS → List Nat
+/-- a history entry of the flat run: a trigger (model, event, does an on_exit callback raise?) or an edit
+of a state's public `tags` list -/
+inductive C19Step
+  | trig (m ev : Nat) (veto : Bool)
+  | edit (s : Nat) (l : List Nat)
+
+def c19Step : P C19Step := do
+  let k ← nat
+  if k = 0 then do let m ← nat; let ev ← nat; let v ← bool; pure (.trig m ev v)
+  else do let s ← nat; let l ← nats; pure (.edit s l)
+
+def c19RunFlat (F : Flat) (nm : Nat) : List C19Step → MS → List Nat
   | [], _ => []
-  | (m, ev) :: r, ms =>
+  | .edit s l :: r, ms => c19RunFlat { F with args := (F.cfg.setTags s l).args } nm r ms
+  | .trig m ev veto :: r, ms =>
     let ms0 : MS := { ms with fs := { ms.fs with log := [] } }
-    let (ms1, res) := trigger F m ev ms0
+    let (ms1, res) := trigger F m ev ms0 veto
     encLog ms1.fs.log ++ [res.code]
       ++ ((List.range nm).flatMap fun x => ms1.cur x :: (snap F.cfg x ms1.fs).map encOpt)
       ++ c19RunFlat F nm r ms1
@@ -112,7 +132,7 @@ def c19FlatCase : P String := do
   let ignoreInvalid ← bool
   let nm ← nat
   let initial ← nat
-  let h ← list (do let m ← nat; let e ← nat; pure (m, e))
+  let h ← list c19Step
   let F : Flat := { feats, args := c19Args ss, nhooks, trans, ignoreInvalid }
   pure (joinNats (c19RunFlat F nm h { fs := FS.init, cur := fun _ => initial }))
 
